@@ -12,8 +12,8 @@ import time
 
 from common import Inconclusive, add_violations_from_bad, finish, log
 
-KINDS = ["honest", "otherHash", "replay", "garbage", "offcurve", "badRand", "emptyRand", "swapped", "shiftRandom", "shiftSmall",
-         "selfGarbage", "selfOther", "selfSender", "announce", "announceOther", "underOtherKey", "nonMember"]
+KINDS = ["honest", "otherHash", "replay", "garbage", "offcurve", "badRand", "emptyRand", "swapped", "shiftRandom", "shiftSmall", "staleShare",
+         "selfGarbage", "selfOther", "selfSender", "announce", "announceOther", "announceOutsider", "underOtherKey", "nonMember"]
 PARTY_TYPES = ["cast", "verify", "own", "wrongBlock", "forged", "timeout"]
 MAX_JVMS = 3
 
@@ -191,10 +191,32 @@ def run(ctx):
         """impersonator first, its share under the victim's id, and members 1, 3, 4 answering honestly"""
         honest = {m["sender"] for m in h if m["kind"] == "honest"}
         return impersonator_first(h) and {1, 3, 4} <= honest and \
-            any(m["kind"] == "underOtherKey" and m["sender"] == 2 for m in h)
+            any(m["kind"] == "underOtherKey" and m["sender"] == 2 for m in h) and \
+            not any(m["kind"] in ("announceOutsider", "nonMember") for m in h)   # the last clause is not judged with an outsider acting
+    def outsider_first(h):
+        """a node outside the group announces a key for its own id before its share arrives"""
+        for i, m in enumerate(h):
+            if m["kind"] == "announceOutsider":
+                return any(x["kind"] == "nonMember" for x in h[i + 1:])
+            if m["kind"] == "nonMember":
+                return False
+        return False
+    def outsider_in_recovery(h):
+        """... and its share is among the first threshold shares of a round that reaches the threshold"""
+        if not outsider_first(h):
+            return False
+        at = [i for i, m in enumerate(h) if m["kind"] == "nonMember"][0]
+        before = len({m["sender"] for m in h[:at] if m["kind"] == "honest" and m["sender"] != 2})
+        total = len({m["sender"] for m in h if m["kind"] == "honest" and m["sender"] != 2})
+        return before <= 1 and total >= 2 and not any(m["kind"] in ("announceOther", "underOtherKey") for m in h)
     kblock = [h for h in khists if blocks_the_block(h)]
-    kfirst = kblock[:10 if quick else 400] + [h for h in khists if impersonator_first(h) and not blocks_the_block(h)]
-    krest = [h for h in khists if not impersonator_first(h)]
+    kout = [h for h in khists if outsider_in_recovery(h)]
+    kfirst = kblock[:10 if quick else 400] + kout[:10 if quick else 400] + \
+        [h for h in khists if (impersonator_first(h) and not blocks_the_block(h)) or (outsider_first(h) and not outsider_in_recovery(h))]
+    krest = [h for h in khists if not impersonator_first(h) and not outsider_first(h)]
+    early_vacuous = []
+    if not kout:
+        early_vacuous.append("no generated sequence has an outsider's announced share among the first threshold shares")
     chosen = hists[:1400 if quick else 60000] + kfirst[:100 if quick else 8000] + krest[:200 if quick else 16000]
     rnd.shuffle(chosen)
     if quick:
@@ -227,9 +249,8 @@ def run(ctx):
         for line in o.splitlines():
             if line.startswith("c15p-log:"):
                 log(line)
-    for need in KINDS + ["wire", "recovered", "messages"]:
-        if counts.get(need, 0) == 0:
-            raise Inconclusive("vacuity: no %s occurred in the driven sequences" % need)
+    vacuous = early_vacuous + ["no %s occurred in the driven sequences" % need
+               for need in KINDS + ["wire", "recovered", "messages"] if counts.get(need, 0) == 0]
     if not any(forged_first(h) for h in pchosen):
         raise Inconclusive("vacuity (extension): no sequence with a forgery buffered before the honest share and the proposal")
     for need in PARTY_TYPES + ["finalised", "twoBlocks"]:
@@ -268,6 +289,10 @@ def run(ctx):
                     e = json.loads(line)
                     if e["event"] == "Call" and e["m"]["type"] not in [s["m"]["type"] for s in psamples]:
                         psamples.append(e)
+    # a run in which something the check relies on never happened decides nothing -- unless the real code
+    # already showed a violation (e.g. no round recovers because every honest share is refused)
+    if vacuous and not ctx.violations:
+        raise Inconclusive("vacuity: " + "; ".join(vacuous))
     coverage = {
         "states": ref["distinct"] + gen["distinct"] + kref["distinct"] + kgen["distinct"],
         "transitions": ref["generated"] + gen["generated"] + kref["generated"] + kgen["generated"],
